@@ -16,6 +16,8 @@ replay = F.replay
 
 def run(ctx, model_ok, deep=False):
     F.run_suites(ctx, model_ok, deep, [
+        ("programs", S.programs_suite, S.falsify_programs,
+         "110 (quick) / 1500 (thorough) random programs of 55-70 API calls over 3 checkers, 3 builders, every pool key (with/without alg attribute, private/public), callbacks, clocks and both providers; every answer compared with the model; 60% of the verifies and generates are asked of a fresh twin configured by the same calls first", False),
         ("errors-by-history", S.reuse_suite, S.falsify_reuse,
          "every failure cause of the token alphabet crossed with prior states reached by all short histories (fresh, flag set, set then cleared); contract rc!=0 <=> flag, flag => message, success => clean", False),
         ("alg-matrix-sample", 200 if not (ctx.tier == "thorough" or deep) else None, S.falsify_accept,
